@@ -165,6 +165,10 @@ pub fn rk_tag(k: &RK) -> &'static str {
             (true, false) => "ref-mixed-col",
             (false, true) => "ref-mixed-row",
         },
+        RK::Range { c1, r1, c2, r2 } if c1.n > c2.n || r1.n > r2.n => {
+            let _ = (c1, r1, c2, r2);
+            "range-reversed"
+        }
         RK::Range { c1, r1, c2, r2 } => {
             let a = [c1.abs, r1.abs, c2.abs, r2.abs];
             if a.iter().all(|x| !*x) {
@@ -1319,7 +1323,7 @@ pub const QUOTED_SHEETS: [&str; 2] = ["My Sheet", "It's"];
 fn lit(text: &'static str, tag: &'static str, kind: LitKind) -> Leaf {
     Leaf::Lit { text, tag, kind }
 }
-/// the 11 reference shapes (each is combined with every qualifier) + a far relative cell (unqualified only)
+/// the 13 reference shapes (11 + two reversed-corner ranges) (each is combined with every qualifier) + a far relative cell (unqualified only)
 pub fn ref_shapes(co: Coords) -> Vec<RK> {
     let (c1, r1, c2, r2) = (co.c1, co.r1, co.c2, co.r2);
     vec![
@@ -1334,6 +1338,9 @@ pub fn ref_shapes(co: Coords) -> Vec<RK> {
         RK::Cols { c1: p(c1, true), c2: p(c2, true) },
         RK::Rows { r1: p(r1, false), r2: p(r2, false) },
         RK::Rows { r1: p(r1, true), r2: p(r2, true) },
+        // corners not written top-left:bottom-right (legal; the library keeps them verbatim)
+        RK::Range { c1: p(c1, false), r1: p(r2, false), c2: p(c2, false), r2: p(r1, false) },
+        RK::Range { c1: p(c2, false), r1: p(r1, false), c2: p(c1, false), r2: p(r2, false) },
     ]
 }
 pub fn quals(plain: &'static str) -> Vec<Qual> {
